@@ -73,10 +73,6 @@ def gen_adapter(rng, tier, subset=None):
         subset = [s for s in ("categorical", "numerical", "embedding") if rng.chance(0.6)]
         if not subset and rng.chance(0.6):
             subset = [rng.pick(["categorical", "numerical", "embedding"])]
-    if n == 0 and "embedding" in subset:
-        # zero-row frames with an embedding block are not generated: values.view(0, -1) is ambiguous for torch
-        # (RuntimeError in all three adapters); reported as an observation, outside the property's table
-        n = 1
     miss = rng.pick(["none", "some", "some", "all"])
 
     def missing():
@@ -618,6 +614,7 @@ def stats(cases, obss):
             d["with_minus1"] += bool(c["cat"]) and any(-1 in r for r in c["cat"]["rows"])
             d["with_nan"] += bool(c["num"]) and any(None in r for r in c["num"]["rows"])
             d["rejected_empty"] += not o["xgb"]["ok"]
+            d["zero_rows_with_embedding"] = d.get("zero_rows_with_embedding", 0) + (c["n"] == 0 and bool(c["emb"]))
         elif k == "metric":
             d["metric_kinds"][c["metric"]] = d["metric_kinds"].get(c["metric"], 0) + 1
             d["binary_with_exact_half"] += c["metric"] == "acc_bin" and any(Fraction(*p) == Fraction(1, 2) for p in c["pred"])
@@ -628,6 +625,40 @@ def stats(cases, obss):
             d["guard_error_steps"] += sum(1 for s in o["steps"] if not s["ok"])
             d["guard_ok_steps"] += sum(1 for s in o["steps"] if s["ok"])
     return d
+
+
+def sanity(cases, obss):
+    """Fail-closed distribution check."""
+    d = stats(cases, obss)
+    probs = []
+    for sub in ("none", "cat", "num", "emb", "cat+num", "cat+emb", "num+emb", "cat+num+emb"):
+        if d["adapter_subsets"].get(sub, 0) == 0:
+            probs.append(f"stype subset {sub} never drawn")
+    for n in (0, 1, 2, 3):
+        if d["adapter_rows"].get(n, 0) == 0:
+            probs.append(f"no frame with {n} rows")
+    if d.get("zero_rows_with_embedding", 0) == 0:
+        probs.append("no zero-row frame with an embedding block")
+    for k in ("with_y", "with_ignored", "with_minus1", "with_nan", "rejected_empty", "binary_with_exact_half"):
+        if d[k] == 0:
+            probs.append(f"{k} is 0")
+    na = max(1, d["kinds"].get("adapter", 0))
+    if d["rejected_empty"] > 0.2 * na:
+        probs.append("too many rejected (empty) frames")
+    if d["with_y"] == na:
+        probs.append("no frame without y")
+    for m in ("rmse", "mae", "acc_bin", "acc_multi"):
+        if d["metric_kinds"].get(m, 0) == 0:
+            probs.append(f"metric {m} never drawn")
+    if d["kinds"].get("pair", 0) != len(TASKS) * (len(METRICS) + 1):
+        probs.append("the (task, metric) table is not enumerated completely")
+    if d["pairs_accepted"] == 0 or d["pairs_rejected"] == 0:
+        probs.append("(task, metric) pairs all accepted or all rejected")
+    if sum(v for k, v in d["guard_lengths"].items() if int(k) <= 3) < sum(len(GOPS) ** L for L in (1, 2, 3)):
+        probs.append("guard sequences up to length 3 are not enumerated completely")
+    if d["guard_error_steps"] == 0 or d["guard_ok_steps"] == 0:
+        probs.append("guard steps all ok or all errors")
+    return probs
 
 
 # ----------------------------------------------------------------- Coq side
